@@ -5,6 +5,7 @@ import (
 	"go/constant"
 	"go/token"
 	"go/types"
+	"regexp"
 	"sort"
 	"strings"
 
@@ -109,14 +110,20 @@ func boundedFields(t *Tree) map[string]int64 {
 				// load(field)+1 under load(field) < B
 				if bo, isB := s.Val.(*ssa.BinOp); isB && bo.Op == token.ADD {
 					if one, isC := constInt(bo.Y); isC && one == 1 && path(bo.X) == path(fa) {
-						for _, ec := range controlling(s.Block()) {
-							if c2, ok := ec.Cond.(*ssa.BinOp); ok && c2.Op == token.LSS && ec.Pol && path(c2.X) == path(fa) {
-								if b, ok := constInt(c2.Y); ok {
-									if b > e.bound {
-										e.bound = b
-									}
-									return
+						// under field < B (or not field >= B), whichever load of the field the test used
+						for _, ec := range factsAt(s) {
+							c2, ok := ec.Cond.(*ssa.BinOp)
+							if !ok || !((c2.Op == token.LSS && ec.Pol) || (c2.Op == token.GEQ && !ec.Pol)) {
+								continue
+							}
+							if path(c2.X) != path(fa) || !sameValue(c2.X, bo.X, s) {
+								continue
+							}
+							if b, ok := constInt(c2.Y); ok {
+								if b > e.bound {
+									e.bound = b
 								}
+								return
 							}
 						}
 					}
@@ -155,13 +162,41 @@ func (d *dischargeCtx) upperBound(in ssa.Instruction, idx ssa.Value) (int64, str
 			if k, isC := constInt(bo.Y); isC {
 				return k, fmt.Sprintf("dominated by index < %d", k)
 			}
-			if ld, ok := bo.Y.(*ssa.UnOp); ok {
-				if fa, ok := ld.X.(*ssa.FieldAddr); ok {
-					key := namedOf(fa.X.Type()) + "." + fieldName(fa)
-					if b, ok := d.bounded[key]; ok {
-						return b, fmt.Sprintf("index < %s and every writer keeps %s ≤ %d", key, key, b)
+			if b, key := d.boundedLoad(bo.Y); b >= 0 {
+				return b, fmt.Sprintf("index < %s and every writer keeps %s ≤ %d", key, key, b)
+			}
+			// index < len(x[:h]) with h a constant or a bounded field
+			if call, ok := bo.Y.(*ssa.Call); ok {
+				if bi, isB := call.Call.Value.(*ssa.Builtin); isB && bi.Name() == "len" && len(call.Call.Args) == 1 {
+					if sl, isS := call.Call.Args[0].(*ssa.Slice); isS && sl.High != nil {
+						if k, isC := constInt(sl.High); isC && k >= 0 {
+							return k, fmt.Sprintf("index < len(x[:%d])", k)
+						}
+						if b, key := d.boundedLoad(sl.High); b >= 0 {
+							return b, fmt.Sprintf("index < len(x[:%s]) and every writer keeps %s ≤ %d", key, key, b)
+						}
 					}
 				}
+			}
+		}
+	}
+	return -1, ""
+}
+
+// boundedLoad: v is a load of a struct field whose every writer keeps it ≤ b (through integer conversions).
+func (d *dischargeCtx) boundedLoad(v ssa.Value) (int64, string) {
+	for {
+		if cv, ok := v.(*ssa.Convert); ok {
+			v = cv.X
+			continue
+		}
+		break
+	}
+	if ld, ok := v.(*ssa.UnOp); ok && ld.Op == token.MUL {
+		if fa, ok := ld.X.(*ssa.FieldAddr); ok {
+			key := namedOf(fa.X.Type()) + "." + fieldName(fa)
+			if b, ok := d.bounded[key]; ok {
+				return b, key
 			}
 		}
 	}
@@ -531,7 +566,133 @@ func (d *dischargeCtx) dischargeIndex(f *ssa.Function, in ssa.Instruction, base,
 	if why := helperBounded(in, idx, bp); why != "" {
 		return why
 	}
+	if nonNegative(in, idx) {
+		if why := phiCorrelatedBelowLen(in, idx, base); why != "" {
+			return why
+		}
+		if why := transitiveBelowLen(in, idx, bp); why != "" {
+			return why
+		}
+	}
 	return ""
+}
+
+// phiCorrelatedBelowLen: idx < n is known, where n = phi(n1…nk) and base = phi(b1…bk) are joined in the same block,
+// and for every incoming edge either nj == len(bj) or the edge is infeasible here (its predecessor is controlled by
+// `x == c1` while the access is controlled by `x == c2`, c1 ≠ c2, for the same value x) — the length was saved in
+// a variable in the arm that also chose the container.
+func phiCorrelatedBelowLen(in ssa.Instruction, idx, base ssa.Value) string {
+	bphi, ok := base.(*ssa.Phi)
+	if !ok {
+		return ""
+	}
+	here := factsAt(in)
+	for _, ec := range here {
+		bo, ok := ec.Cond.(*ssa.BinOp)
+		if !ok || !sameValue(bo.X, idx, in) || !((bo.Op == token.LSS && ec.Pol) || (bo.Op == token.GEQ && !ec.Pol)) {
+			continue
+		}
+		nphi, ok := bo.Y.(*ssa.Phi)
+		if !ok || nphi.Block() != bphi.Block() || len(nphi.Edges) != len(bphi.Edges) {
+			continue
+		}
+		all := true
+		for k := range nphi.Edges {
+			if lp, isLen := lenOf(nphi.Edges[k]); isLen && lp == path(bphi.Edges[k]) {
+				continue
+			}
+			// infeasible edge?
+			pred := nphi.Block().Preds[k]
+			infeasible := false
+			for _, pc := range append(controlling(pred), edgeFact(pred, nphi.Block())...) {
+				pb, ok := pc.Cond.(*ssa.BinOp)
+				if !ok || pb.Op != token.EQL {
+					continue
+				}
+				c1, isC1 := constInt(pb.Y)
+				if !isC1 {
+					continue
+				}
+				for _, hc := range here {
+					hb, ok := hc.Cond.(*ssa.BinOp)
+					if !ok || hb.Op != token.EQL || hb.X != pb.X {
+						continue
+					}
+					c2, isC2 := constInt(hb.Y)
+					if !isC2 {
+						continue
+					}
+					// x == c1 there and x == c2 here; or x == c there and x != c here (either way round)
+					if (pc.Pol && hc.Pol && c1 != c2) || (c1 == c2 && pc.Pol != hc.Pol) {
+						infeasible = true
+					}
+				}
+			}
+			if !infeasible {
+				all = false
+			}
+		}
+		if all {
+			return "index < n where n was saved as len() of this container in the arm that selected it (joined phis; the other arms are excluded by the tag tested here)"
+		}
+	}
+	return ""
+}
+
+// edgeFact: the fact established by taking the edge pred -> succ when pred ends in an If.
+func edgeFact(pred, succ *ssa.BasicBlock) []edgeCond {
+	iff, ok := pred.Instrs[len(pred.Instrs)-1].(*ssa.If)
+	if !ok || len(pred.Succs) != 2 || pred.Succs[0] == pred.Succs[1] {
+		return nil
+	}
+	return []edgeCond{{If: pred, Cond: iff.Cond, Pol: pred.Succs[0] == succ}}
+}
+
+// transitiveBelowLen: idx < v and v ≤ len(base) are both dominating facts (e.g. a loop bound `end` checked once
+// against the length before the loop).
+func transitiveBelowLen(in ssa.Instruction, idx ssa.Value, base string) string {
+	facts := factsAt(in)
+	for _, ec := range facts {
+		bo, ok := ec.Cond.(*ssa.BinOp)
+		if !ok || !sameValue(bo.X, idx, in) || !((bo.Op == token.LSS && ec.Pol) || (bo.Op == token.GEQ && !ec.Pol)) {
+			continue
+		}
+		v := bo.Y
+		if _, isC := v.(*ssa.Const); isC {
+			continue
+		}
+		for _, e2 := range facts {
+			b2, ok := e2.Cond.(*ssa.BinOp)
+			if !ok {
+				continue
+			}
+			lp, isLen := lenOf(b2.Y)
+			if !isLen || lp != base || !sameOrConverted(b2.X, v) {
+				continue
+			}
+			if ((b2.Op == token.LEQ || b2.Op == token.LSS) && e2.Pol) || ((b2.Op == token.GTR || b2.Op == token.GEQ) && !e2.Pol && b2.Op == token.GTR) {
+				return fmt.Sprintf("index < %s and %s ≤ len(%s) are both established on every path here", path(v), path(v), base)
+			}
+		}
+	}
+	return ""
+}
+
+// sameOrConverted: a and b are the same value, possibly through an integer conversion of one of them.
+func sameOrConverted(a, b ssa.Value) bool {
+	strip := func(v ssa.Value) ssa.Value {
+		for {
+			switch x := v.(type) {
+			case *ssa.Convert:
+				v = x.X
+			case *ssa.ChangeType:
+				v = x.X
+			default:
+				return v
+			}
+		}
+	}
+	return strip(a) == strip(b)
 }
 
 func checkC01(c *Ctx) {
@@ -652,6 +813,11 @@ func (d *dischargeCtx) dischargeSlice(f *ssa.Function, x *ssa.Slice) string {
 		if cl && ch && 0 <= lo && lo <= hi && hi <= n {
 			return "constant bounds within a fixed-size array"
 		}
+		if x.Low == nil && x.High != nil && x.Max == nil {
+			if b, key := d.boundedLoad(x.High); b >= 0 && b <= n && (isUnsigned(x.High.Type()) || nonNegative(x, x.High)) {
+				return fmt.Sprintf("array[:%s] and every writer keeps %s ≤ %d ≤ len", key, key, b)
+			}
+		}
 	}
 	if okLow && okHigh {
 		if x.Low != nil && x.High != nil {
@@ -751,23 +917,46 @@ func safeMake(x *ssa.MakeSlice) string {
 }
 
 // shapeInvariant: accessor calls justified by a parser shape invariant instead of a local NodeType test.
-func shapeInvariant(t *Tree, call *ssa.Call) string {
-	// ForInStmt.Varb is always an Identifier: newForInStmt returns nil otherwise (checked on the constructor)
+func shapeInvariant(t *Tree, call *ssa.Call, s2k map[string]int64) string {
+	// ForInStmt.Varb is always an Identifier: the only constructor stores into Varb a node it has tested
+	// NodeType == TypeIdentifier (checked on the constructor, whatever form the test takes)
 	p := path(call.Call.Args[0])
 	f := call.Call.StaticCallee()
 	if strings.HasSuffix(p, ".Varb") && f.Name() == "Identifier" {
 		nf := t.Method(pParser, "parser", "newForInStmt")
-		if nf != nil {
-			ok := false
+		want, okK := s2k["Identifier"]
+		if nf != nil && okK {
+			n, ok := 0, true
 			allInstrs(nf, func(in ssa.Instruction) {
-				if bo, isB := in.(*ssa.BinOp); isB && bo.Op == token.EQL && strings.HasSuffix(path(bo.X), ".LHS.NodeType") {
-					// the non-identifier arm rejects
-					if iff, isIf := bo.Block().Instrs[len(bo.Block().Instrs)-1].(*ssa.If); isIf && iff.Cond == ssa.Value(bo) {
-						ok = allReturnNil(bo.Block().Succs[1])
-					}
+				st, isS := in.(*ssa.Store)
+				if !isS {
+					return
+				}
+				fa, isF := st.Addr.(*ssa.FieldAddr)
+				if !isF || fieldName(fa) != "Varb" || namedOf(fa.X.Type()) != "ast.ForInStmt" {
+					return
+				}
+				n++
+				if kindFactPath(t, st, path(st.Val), want) == "" {
+					ok = false
 				}
 			})
-			if ok {
+			// and nobody else writes the field
+			for pkg := range t.SSA {
+				for _, g := range t.PkgFuncs(pkg) {
+					if g == nf {
+						continue
+					}
+					allInstrs(g, func(in ssa.Instruction) {
+						if st, isS := in.(*ssa.Store); isS {
+							if fa, isF := st.Addr.(*ssa.FieldAddr); isF && fieldName(fa) == "Varb" && namedOf(fa.X.Type()) == "ast.ForInStmt" {
+								ok = false
+							}
+						}
+					})
+				}
+			}
+			if ok && n > 0 {
 				return "parser shape invariant: newForInStmt only builds a ForInStmt whose Varb is an Identifier"
 			}
 		}
@@ -907,6 +1096,8 @@ func memoGuarded(t *Tree, f *ssa.Function, ret *ssa.Return) bool {
 // nonEmptyListFields: slice-typed AST fields that every grammar action fills with a list of at least one element:
 // the argument is a non-empty slice literal, or a list symbol all of whose productions start from a one-element
 // literal and only append.
+var reAppendElem = regexp.MustCompile(`yyVAL\.nodes = append\([^,()]+(\.nodes)?, yyDollar\[\d+\]\.node\)`)
+
 func nonEmptyListFields(t *Tree, g *Gram) map[string]string {
 	out := map[string]string{}
 	if g == nil {
@@ -931,7 +1122,7 @@ func nonEmptyListFields(t *Tree, g *Gram) map[string]string {
 			txt := exprText(g.Fset, ai.Body)
 			switch {
 			case strings.Contains(txt, "yyVAL.nodes = []*ast.Node{yyDollar["):
-			case strings.Contains(txt, "yyVAL.nodes = append(yyVAL.nodes, yyDollar[") && len(p.RHS) > 0 && p.RHS[0] == sym:
+			case reAppendElem.MatchString(txt): // append(<anything>, <element>) has at least one element
 			default:
 				ok = false
 			}
@@ -1148,7 +1339,7 @@ func panicRules(c *Ctx, scope, skip map[*ssa.Function]bool, d *dischargeCtx, s2k
 			nAcc++
 			by := kindGuarded(t, call, s2k)
 			if by == "" {
-				by = shapeInvariant(t, call)
+				by = shapeInvariant(t, call, s2k)
 			}
 			base := fmt.Sprintf("%s accessor %s.%s()", relName(f), path(call.Call.Args[0]), cal.Name())
 			accSeen[base]++
